@@ -336,16 +336,26 @@ func runC05ReusedFlow(c *Cfg) {
 	}
 	parallel(c, len(cases), func(i int) {
 		sc := cases[i]
-		base := sc.Clone()
-		base.Inject = scen.Inject{}
-		ref := keysOf(scen.NewExec(base).RunOnce().Events)
 		x := scen.NewExec(sc)
 		for run := 0; run < 2; run++ {
 			o := x.RunOnce()
 			r.EvalN(1)
 			r.Count("inject.reused-flow", 1)
-			for _, f := range judgeC05(c, sc, ref, &o, run == 0) {
-				r.Violate("C05", "C05:"+f.Key, fmt.Sprintf("run %d of the same flow object (context kind %s): %s", run, []string{sc.Inject.Kind, sc.Inject.Alt}[run], f.Detail), ScenCase{"reused-flow", sc})
+			kindNow := []string{sc.Inject.Kind, sc.Inject.Alt}[run]
+			// the cancellation comes inside the first node (its prep or its post): the second node never starts, the
+			// run is cut short, and its error is THIS run's context error
+			for _, e := range o.Events {
+				if e.Node == 1 {
+					r.Violate("C05", "C05:node-after-cancel", fmt.Sprintf("run %d of the same flow object (context kind %s): the second node was started although the context was cancelled inside the first", run, kindNow), ScenCase{"reused-flow", sc})
+					break
+				}
+			}
+			if o.CancelSeq >= 0 {
+				if o.ErrNil {
+					r.Violate("C05", "C05:cut-short-success:reused-flow", fmt.Sprintf("run %d of the same flow object (context kind %s) was cut short but reported success", run, kindNow), ScenCase{"reused-flow", sc})
+				} else if !strings.Contains(o.ErrID, "ctx") {
+					r.Violate("C05", "C05:cut-short-error-not-ctx:reused-flow", fmt.Sprintf("run %d of the same flow object was cut short by its context (kind %s, error %q); the returned error %q does not match it (an earlier run of this flow object was cut short by a context of another kind)", run, kindNow, o.CtxErr, o.ErrText), ScenCase{"reused-flow", sc})
+				}
 			}
 		}
 		r.Nontrivial("rf:" + scenSig(sc))
@@ -443,16 +453,12 @@ func replayC05(c *Cfg, spec json.RawMessage) {
 		return
 	}
 	if cs.Family == "reused-flow" {
-		base := cs.Scenario.Clone()
-		base.Inject = scen.Inject{}
-		ref := keysOf(scen.NewExec(base).RunOnce().Events)
 		x := scen.NewExec(cs.Scenario)
 		for run := 0; run < 2; run++ {
 			o := x.RunOnce()
 			fmt.Printf("run %d: errNil=%v err=%q matches=%q ctx=%q\n", run, o.ErrNil, o.ErrText, o.ErrID, o.CtxErr)
-			for _, f := range judgeC05(c, cs.Scenario, ref, &o, false) {
-				fmt.Printf(" * finding %s: %s\n", f.Key, f.Detail)
-				c.Rep.Violate("C05", "C05:"+f.Key, f.Detail, cs)
+			if o.CancelSeq >= 0 && (o.ErrNil || !strings.Contains(o.ErrID, "ctx")) {
+				c.Rep.Violate("C05", "C05:cut-short-error-not-ctx:reused-flow", "the returned error does not match this run's context error", cs)
 			}
 		}
 		return
